@@ -60,6 +60,10 @@ def gen_points(rng, lo: float, hi: float):
         pts.append(("far", lo + rng.choice([-1, 1]) * mag * R * rng.random()))
     for _ in range(4):
         pts.append(("slightly-outside", rng.choice([lo - R * rng.random() * 0.5, hi + R * rng.random() * 0.5])))
+    # magnitudes that have nothing to do with the box (|x - lower| / range may exceed the largest double although both are ordinary)
+    for v in (1.0, -1.0, 1e150, -1e150, 1e300, -1e300, 12345.678):
+        if not (lo <= v <= hi):
+            pts.append(("absolute-magnitude", v))
     out = []
     for c, v in pts:
         # inputs whose distance to a bound is itself not a finite double (|x - bound| > 1.8e308) are left out: no formulation in
@@ -83,7 +87,8 @@ def make_case(seed, idx, tier):
         d = rng.randint(2, 4)
         pool = [[0.0, 1e9], [0.0, 1e-9], [-1e6, 1e6], [1.0, 1.0 + 1e-3], [-0.1, 0.2], [0.0, 1e-6], [-5.0, 5.0], [1e6, 1e6 + 1.0],
                 [0.0, 1e-16], [-3e-17, 5e-17], [1e-300, 3e-300],  # ranges far below machine epsilon in absolute terms are ordinary boxes too
-                [-6e307, 6e307], [-8.9e307, 8.9e307], [0.0, 1.5e308], [-1.7e308, 1e300]]  # finite boxes whose range is finite but twice the range is not
+                [-6e307, 6e307], [-8.9e307, 8.9e307], [0.0, 1.5e308], [-1.7e308, 1e300],
+                [0.0, 1e-310], [1e10, 1e10 + 1e-5], [-1e-200, 1e-200]]  # ... and ranges so small that (x - lower) / range is not a finite double for ordinary x  # finite boxes whose range is finite but twice the range is not
         box = {"cls": "xscale", "bounds": [list(rng.choice(pool)) for _ in range(d)]}
     cols = [gen_points(rng, b[0], b[1]) for b in box["bounds"]]
     m = max(len(c) for c in cols)
@@ -117,9 +122,11 @@ def run_case(desc):
         if sum(1 for v in violations if v["key"] == key) < 3:
             violations.append({"property": "C17", "key": key, "detail": detail})
 
+    held = []  # results a caller still holds while it goes on calling: (method, the returned object, a private copy of its content)
     for method in METHODS:
         src = pts.copy()
         out = apply_bounds(src, bounds, method)
+        held.append((method, out, np.array(out, dtype=np.float64, copy=True)))
         out = np.asarray(out, dtype=np.float64)
         if not np.array_equal(src, pts, equal_nan=True):
             viol(f"{method}: the input array was modified in place")
@@ -166,6 +173,15 @@ def run_case(desc):
                 cov["congruence_checked"] += 1
                 if err > tol:
                     viol(f"{method}: result is not congruent to the input as the method prescribes", exact_image=float(img), error=float(err), tolerance=float(tol), **wit)
+    # a second round of calls with other out-of-box inputs of the same shape, then every result handed out earlier is looked at again
+    shifted = pts + (bounds[:, 1] - bounds[:, 0]) * 0.37
+    shifted = np.where(np.isfinite(shifted), shifted, pts)
+    for method in METHODS:
+        apply_bounds(shifted.copy(), bounds, method)
+    for method, obj_, content in held:
+        cov["results_re-read_after_later_calls"] += 1
+        if not np.array_equal(np.asarray(obj_, dtype=np.float64), content, equal_nan=True):
+            viol(f"{method}: a result handed out earlier changed when apply_bounds was called again")
     # integer-typed input arrays are real vectors too: the result must not be truncated to the input's dtype
     if desc.get("idx", 0) % 4 == 3:
         ints = np.array([[k + j for j in range(d)] for k in (-7, -1, 0, 1, 2, 9, 10, 1000)], dtype=np.int64)
